@@ -22,13 +22,10 @@ fn startpoints_check<const N: usize>() {
         assert!(i < N);
         assert!(start + off == offset);
         assert!(off < sizes[i]);
-        kani::cover!(i == N - 1 && off == sizes[N - 1] - 1, "last byte of the file");
-        kani::cover!(N < 2 || (i == 1 && off == 0), "first byte of the second blob");
     } else {
         // reading at or beyond EOF must yield nothing in read_at: either no blob is selected,
         // or the in-blob offset is at/after the end of the last blob
         assert!(i >= N || (i == N - 1 && off >= sizes[i]));
-        kani::cover!(offset == total, "read exactly at EOF");
     }
     // the slicing loop of OpenFile::read_at (mirrored; the blob source is the only substitution)
     let mut length: usize = kani::any();
@@ -53,6 +50,10 @@ fn startpoints_check<const N: usize>() {
     }
     assert!(pos_ok);
     assert!(got == want);
+    // witnesses (trivially true for the instances whose shape cannot show them: the empty file, a single blob)
+    kani::cover!(N == 0 || (offset < total && i == N - 1 && off == sizes[N - 1] - 1), "last byte of the file");
+    kani::cover!(N < 2 || (offset < total && i == 1 && off == 0), "first byte of the second blob");
+    kani::cover!(N == 0 || offset == total, "read exactly at EOF");
     kani::cover!(true, "checked");
     std::mem::forget(sp);
 }
